@@ -191,7 +191,14 @@ HISTORIES = [
     [(0, "PASV"), (0, "REUSER"), (1, "EPSV"), (0, "EPSV"), (0, "LIST"), (1, "REUSER"), (1, "DROP"), (2, "EPSV"), (0, "QUIT"), (2, "REUSER"),
      (2, "PASV"), (2, "QUIT")],
     [(0, "PIPELINED"), (1, "PIPELINED"), (0, "LIST"), (1, "QUIT"), (2, "EPSV"), (0, "PIPELINED"), (0, "DROP"), (2, "PIPELINED"), (2, "LIST"), (2, "QUIT")],
+    # four sessions: pool priorities diverge (a port busy twice), a session is refused, a port comes back, the next search
+    # has to reach the port that is still free (F16)
+    [(0, "PASV"), (1, "PASV"), (2, "PASV"), (1, "QUIT"), (3, "PASV"), (3, "LIST"), (0, "QUIT"), (3, "EPSV"), (2, "PWD"), (3, "QUIT")],
 ]
+
+
+def nsess_of(history):
+    return 1 + max(i for i, _ in history)
 
 
 def part_faults(ctx):
@@ -203,18 +210,18 @@ def part_faults(ctx):
         faults = {k: ERRS[v] for k, v in zip(keys, patterns[pi]) if v}
         info = dict(tag="faults")
         try:
-            info = run_history(PORTS, faults, 3, HISTORIES[hi], tag="faults")
+            info = run_history(PORTS, faults, nsess_of(HISTORIES[hi]), HISTORIES[hi], tag="faults")
         except Violation as v:
             ctx.fail(v.sig, dict(faults=[list(k) + [val] for k, val in faults.items()], history=hi), v.detail)
         ctx.count((patterns[pi], hi), bool(faults), sample=dict(faults={f"{k[0]}#{k[1]}": errno.errorcode[v] for k, v in faults.items()},
                                                                history=HISTORIES[hi], trace=info.get("trace")),
                   classes=["history_%d" % hi, "faults_%d" % len(faults)] + (["startup_cut"] if info.get("startup_cut") else []))
-    ctx.exhaustive = False  # exhaustive over the 729 fault patterns, but only for these three histories
+    ctx.exhaustive = False  # exhaustive over the 729 fault patterns, but only for these six histories
 
 
 def replay_faults(case):
     faults = {(p, a): e for p, a, e in case["faults"]}
-    run_history(PORTS, faults, 3, HISTORIES[case["history"]], tag="faults")
+    run_history(PORTS, faults, nsess_of(HISTORIES[case["history"]]), HISTORIES[case["history"]], tag="faults")
 
 
 # ---------------------------------------------------------------- session end inside listener start-up
